@@ -1759,7 +1759,10 @@ def _b_filter(I, run, args, kwargs, node):
 def _b_sorted(I, run, args, kwargs, node):
     it = I.resolve(run, args[0])
     items = None
-    if isinstance(it, (Tup,)) or (isinstance(it, Ref) and isinstance(run.cell(it), HList)):
+    from . import native as _native
+    closed_dict = isinstance(it, Ref) and isinstance(run.cell(it), HDict) and not run.cell(it).open and not run.cell(it).sym_items
+    if isinstance(it, (Tup,)) or (isinstance(it, Ref) and (isinstance(run.cell(it), (HList, _native.HNative)) or closed_dict)):
+        # a list / tuple, the keys of a dict whose keys are all known, or a library object (the keys of a SimpleCookie)
         items = list(I.iterate(run, it, node))
         if all(isinstance(x, C) for x in items) and "key" not in kwargs:
             try:
